@@ -563,7 +563,8 @@ SPELL == Fam("spell",
        "declare void @f()\ndefine void @g(i32* %p) {\n  %a = alloca i32, i32 1\n  %b = alloca i32, i32 1, align 4\n  %c = alloca i32, i64 1\n  call ccc void @f()\n  %l = load i32, i32* %p, align 4\n  store i32 %l, i32* %a, align 4\n  ret void\n}",
        "@g = default global i32 0\n@h = external dso_preemptable global i32\n@i = external default global i32, align 1\ndeclare default void @d()\ndefine dso_preemptable default ccc void @e() addrspace(0) {\n  ret void\n}\n@a = external alias i32, i32* @g",
        "!0 = !DISubrange(upperBound: 9, lowerBound: 1)\n!1 = !DIFile(directory: \"/d\", filename: \"f.c\")\n!2 = !DIBasicType(encoding: DW_ATE_signed, size: 32, name: \"int\")\n!e = !{!0, !1, !2}",
-       "attributes #0 = { alignstack=8 \"a\"=\"b\" }\nattributes #0 = { alignstack=8 \"a\" = \"b\" nounwind }\ndeclare void @f() #0"
+       "attributes #0 = { alignstack=8 \"a\"=\"b\" }\nattributes #0 = { alignstack=8 \"a\" = \"b\" nounwind }\ndeclare void @f() #0",
+       "@a = global x86_fp80 0xK00018000000000000000\n@b = global x86_fp80 0xK0FFF8000000000000000\n@c = global x86_fp80 0xK00000000000000000001\n@d = global x86_fp80 0xK80018000000000000000\n@e = global fp128 0xL00000000000000000001000000000000\n@f = global ppc_fp128 0xM00100000000000000000000000000000\n@g = global half 0xH0001\n@h = global float 0x36A0000000000000\n@i = global double 0x0000000000000001"
      >>) >>,
   {}, FALSE)
 
